@@ -28,6 +28,8 @@ type c13Accepted struct {
 }
 
 type c13State struct {
+	// answerHeads: per client, the sizes of the heads carried by answers of its successful lookups
+	answerHeads map[int][]int64
 	w        *sw.World
 	res      *core.Result
 	unis     []*sw.Universe
@@ -359,6 +361,7 @@ func c13Explore(src *choice.Src) *core.Result {
 	}
 	for i, spec := range specs {
 		ci := w.NewClient(m, r.s.NewGroup(), height, unis[spec.Uni], spec.Size)
+		ci.FatalSecurity = src.Bool(1, 2) // half of the client processes exit in their security callback, as real programs do
 		r.clients = append(r.clients, ci)
 		r.specs = append(r.specs, spec)
 		switch {
@@ -465,6 +468,7 @@ func c13Explore(src *choice.Src) *core.Result {
 			r.s.AbortGroup(old.Group)
 			old.Crashed = true
 			nc := w.NewClient(old.Machine, r.s.NewGroup(), old.Height, old.Uni, old.Size)
+			nc.FatalSecurity = old.FatalSecurity
 			r.clients[idx] = nc
 			r.startClient(r.specs[idx], nc, fmt.Sprintf(".r%d", gen))
 		})
@@ -477,6 +481,7 @@ func c13Explore(src *choice.Src) *core.Result {
 		res.Logf("  client %d sees log %s at size %d, start %d", i, unis[spec.Uni].Name, spec.Size, starts[i])
 	}
 	r.finish(false)
+	st.checkStoredAtQuiescence(r, m)
 	// security messages
 	for _, c := range w.Clients {
 		for _, msg := range c.Security {
@@ -518,13 +523,84 @@ func c13AfterLookup(st *c13State, res *core.Result, k int64) func(c *sw.ClientIn
 		if c.HasFirstConfig {
 			st.acceptHeadMsg(c, "head found in the configuration at start", c.FirstConfig)
 		}
+		if len(c.Security) > 0 {
+			// This process has already told its security callback that the log forked, and goes on (the
+			// callback returned). A lookup that now succeeds under a head the stored configuration
+			// contradicts depends on the rejected tree.
+			key := "/lookup/" + sw.EscapeRef(q.Path) + "@" + sw.EscapeRef(strings.TrimSuffix(q.Vers, "/go.mod"))
+			if _, _, rest, ok := ref.SplitRecordMsg(string(c.Delivered[key])); ok {
+				at, aok := sw.ValidSignedHead([]byte(rest))
+				ct, cok := sw.ValidSignedHead(c.Machine.Config[sw.ServerName+"/latest"])
+				if aok && cok {
+					an, ah, _ := ref.ParseTreeText(at)
+					cn, ch, _ := ref.ParseTreeText(ct)
+					if st.lineageOfHead(an, ah)&st.lineageOfHead(cn, ch) == 0 {
+						st.res.Fail("C13", "no-success-after-fork-report", "a lookup succeeds under the rejected tree after the same client reported the fork",
+							"client %d reported a fork to its security callback (which returned), then Lookup(%s) succeeded with an answer whose head (size %d) is inconsistent with the stored head (size %d): the in-memory head stayed on the tree the stored configuration contradicts", c.ID, q, an, cn)
+					}
+				}
+			}
+		}
 		key := "/lookup/" + sw.EscapeRef(q.Path) + "@" + sw.EscapeRef(strings.TrimSuffix(q.Vers, "/go.mod"))
 		data := c.Delivered[key]
 		if id, text, rest, ok := ref.SplitRecordMsg(string(data)); ok {
 			st.accept(c, fmt.Sprintf("successful Lookup(%s) of record #%d", q, id), st.lineageOfRecord(id, text))
 			st.acceptHeadMsg(c, fmt.Sprintf("tree head carried by the answer to Lookup(%s)", q), []byte(rest))
+			if text, ok := sw.ValidSignedHead([]byte(rest)); ok {
+				if n, _, ok := ref.ParseTreeText(text); ok {
+					if st.answerHeads == nil {
+						st.answerHeads = map[int][]int64{}
+					}
+					st.answerHeads[c.ID] = append(st.answerHeads[c.ID], n)
+				}
+			}
 		}
 	}
+}
+
+// checkStoredAtQuiescence: once every goroutine of a client process has finished normally, every head
+// that one of its successful lookups accepted must have reached the stored configuration (the stored
+// head is at least as large). Only judged in runs where nothing but the clients wrote the configuration.
+func (st *c13State) checkStoredAtQuiescence(r *sumRun, m *sw.Machine) {
+	for k := range st.res.Faults {
+		switch k {
+		case "config-rollback", "config-cross", "config-garbage", "config-emptied", "crash-restart":
+			return
+		}
+	}
+	if r.s.Deadlock || r.s.OverBudget {
+		return
+	}
+	stored := int64(0)
+	if text, ok := sw.ValidSignedHead(m.Config[sw.ServerName+"/latest"]); ok {
+		stored, _, _ = ref.ParseTreeText(text)
+	}
+	// Only processes all of whose lookups succeeded are judged: a lookup that failed while writing the
+	// head back (a fork report, an unreadable tile) leaves the newer head in memory only, and nothing in
+	// the property forbids that. When every lookup of a process succeeded, every head it accepted has
+	// gone through a completed write-back, so the configuration must cover it; if it does not, a later
+	// process on this machine can accept the other log (the property's "across restarts").
+	failed := map[int]bool{}
+	for _, outs := range r.outcomes {
+		for _, o := range outs {
+			if o.Err != nil {
+				failed[o.Client] = true
+			}
+		}
+	}
+	for _, c := range st.w.Clients {
+		if c.Machine != m || c.Crashed || len(c.Security) > 0 || failed[c.ID] {
+			continue
+		}
+		for _, n := range st.answerHeads[c.ID] {
+			if n > stored {
+				st.res.Fail("C13", "accepted-head-is-stored", "a head accepted by a successful lookup never reached the stored configuration",
+					"client %d finished normally; one of its successful lookups carried a head of size %d, but the stored latest head has size %d: a later process would not know about the accepted tree", c.ID, n, stored)
+				return
+			}
+		}
+	}
+	st.res.Probes["stored-head-covers-accepted-heads"]++
 }
 
 // c13SweepRun: a systematic small fork. Tape: H-1, nA-1, k, nB-k, order, which, sameProcess.
@@ -543,6 +619,7 @@ func c13SweepRun(src *choice.Src) *core.Result {
 	order := src.Intn(2)
 	which := src.Intn(4)
 	same := src.Intn(2) == 1
+	fatal := src.Intn(2) == 1
 	A := buildUniverse("A", 5, nA, 0)
 	B := A.Fork("B", int64(k))
 	for i := k; B.N() < int64(nB); i++ {
@@ -583,6 +660,7 @@ func c13SweepRun(src *choice.Src) *core.Result {
 	}
 	r.afterLookup = c13AfterLookup(st, res, int64(k))
 	c1 := w.NewClient(m, r.s.NewGroup(), height, first, first.N())
+	c1.FatalSecurity = fatal
 	r.clients = append(r.clients, c1)
 	spec1 := clientSpec{Height: height, Tasks: [][]lookupReq{{req(first, first.N()-1)}}}
 	if same {
@@ -594,6 +672,7 @@ func c13SweepRun(src *choice.Src) *core.Result {
 		r.specs = append(r.specs, spec1)
 		r.startClient(spec1, c1, "")
 		c2 := w.NewClient(m, r.s.NewGroup(), height, second, second.N())
+		c2.FatalSecurity = fatal
 		r.clients = append(r.clients, c2)
 		spec2 := clientSpec{Height: height, Tasks: [][]lookupReq{{req(second, id2)}}}
 		r.specs = append(r.specs, spec2)
@@ -606,6 +685,7 @@ func c13SweepRun(src *choice.Src) *core.Result {
 	}
 	res.Logf("C13 sweep: height %d, A %d, B %d, prefix %d, first shown %s, second lookup record %d, same process %v", height, nA, B.N(), k, first.Name, id2, same)
 	r.finish(false)
+	st.checkStoredAtQuiescence(r, m)
 	for _, c := range w.Clients {
 		for _, msg := range c.Security {
 			st.checkSecurityMessage(c, msg)
@@ -654,12 +734,14 @@ func c13Enumerate(quick bool, seed uint64, shard, nshards int, emit func([]uint6
 					for order := 0; order < 2; order++ {
 						for which := 0; which < 4; which++ {
 							for same := 0; same < 2; same++ {
-								n++
-								if n%nshards != shard {
-									continue
-								}
-								if !emit([]uint64{uint64(h - 1), uint64(nA - 1), uint64(k), uint64(extra), uint64(order), uint64(which), uint64(same)}) {
-									return false
+								for fatal := 0; fatal < 2; fatal++ {
+									n++
+									if n%nshards != shard {
+										continue
+									}
+									if !emit([]uint64{uint64(h - 1), uint64(nA - 1), uint64(k), uint64(extra), uint64(order), uint64(which), uint64(same), uint64(fatal)}) {
+										return false
+									}
 								}
 							}
 						}
@@ -677,7 +759,7 @@ func init() {
 		Entries: []core.Entry{{Name: "explore", Run: c13Explore}, {Name: "forksweep", Run: c13SweepRun}},
 		Explore: []string{"explore"},
 		Sweeps: []core.Sweep{{Name: "small-forks", Entry: "forksweep", Enumerate: c13Enumerate,
-			Space: "tile heights 1..3 (quick 1..2) x log A sizes 1..9 (quick 1..6) x every common prefix length x log B 0..4 records beyond the prefix x which log is shown first x which record the second lookup asks for (newest, oldest, at the fork point, just before it) x {same client process after a view switch, new process on the same machine}"}},
+			Space: "tile heights 1..3 (quick 1..2) x log A sizes 1..9 (quick 1..6) x every common prefix length x log B 0..4 records beyond the prefix x which log is shown first x which record the second lookup asks for (newest, oldest, at the fork point, just before it) x {same client process after a view switch, new process on the same machine} x {security callback returns, security callback exits the process}"}},
 		Rule: "explore: seeded pair of logs with common prefix 0..n (sizes 1-40 and prefix+0..12), both signed by the log key; 1-3 clients sharing one config and cache, each shown either log at any size, views switching mid-run, answers from the other log, cache entries from the other log, config rollback/replacement/garbage, crash-restarts, tile heights 1-8. " +
 			"Distinct = digest of the seam event log and schedule; non-trivial = at least one lookup completed.",
 		Real:        []string{"sumdb.Client (mergeLatest, mergeLatestMem, checkTrees, checkRecord, tile reading)", "tlog", "note", "sumdb.Server.ServeHTTP over harness ServerOps"},
